@@ -21,6 +21,12 @@ type Clause struct {
 	Line  int
 }
 
+// AtClause: an assertion at the calls of a named callee (may mention locals).
+type AtClause struct {
+	Callee string
+	Clause Clause
+}
+
 type LoopSpec struct {
 	Invariants  []Clause
 	Decreases   *Clause
@@ -36,6 +42,7 @@ type Contract struct {
 	Requires    []Clause
 	Ensures     []Clause
 	Checks      []Clause // "check": proved at exit like a postcondition, but not exported to callers (may mention locals)
+	AtCalls     []AtClause // "at <callee> [label:] e": proved in the state right before every call whose callee name contains <callee>
 	Modifies    []Clause
 	ModifiesAll bool
 	HasModifies bool
@@ -118,7 +125,7 @@ func NewSpecs() *Specs {
 var propsRe = regexp.MustCompile(`\[(C[0-9]+(?:\s*,\s*C[0-9]+)*)\]`)
 
 var clauseKeywords = map[string]bool{
-	"requires": true, "ensures": true, "check": true, "modifies": true, "loop": true, "invariant": true,
+	"requires": true, "ensures": true, "check": true, "at": true, "modifies": true, "loop": true, "invariant": true,
 	"decreases": true, "replay:": true, "flag": true, "end": true, "ghostset": true, "ghostinit": true,
 }
 var topKeywords = map[string]bool{
@@ -289,6 +296,20 @@ func (sp *Specs) ParseFile(path, pkgPath string) error {
 				return fmt.Errorf("%s:%d: duplicate contract for %s (also %s:%d)", path, l.line, cur.Full, old.File, old.Line)
 			}
 			sp.Contracts[cur.Full] = cur
+			curLoop = nil
+		case "at":
+			if cur == nil {
+				return fmt.Errorf("%s:%d: at outside a func block", path, l.line)
+			}
+			callee, rest, ok := strings.Cut(strings.TrimSpace(l.rest), " ")
+			if !ok {
+				return fmt.Errorf("%s:%d: at <callee> [label:] expr", path, l.line)
+			}
+			c, err := mkClause(rest, l.line)
+			if err != nil {
+				return err
+			}
+			cur.AtCalls = append(cur.AtCalls, AtClause{Callee: callee, Clause: c})
 			curLoop = nil
 		case "requires", "ensures", "invariant", "decreases", "check":
 			if cur == nil {
